@@ -11,6 +11,7 @@ import Mqtt.Driver.KeepAlive
 import Mqtt.Driver.Client
 import Mqtt.Driver.Conc
 import Mqtt.Driver.Ring
+import Mqtt.Driver.Codec
 
 namespace Mqtt.Driver
 
@@ -21,6 +22,7 @@ structure DState where
   ka : KeepAlive.St := {}
   client : Client.St := {}
   ring : Ring.DSt := Ring.DSt.init
+  codec : Codec.St := Codec.St.init
 
 def dispatch (st : DState) (line : String) : DState × String × String :=
   match words line with
@@ -41,6 +43,7 @@ def dispatch (st : DState) (line : String) : DState × String × String :=
     ({ st with client := a }, m, s)
   | "conc" :: rest => let o := Conc.handle rest; (st, o, o)
   | "ring" :: rest => let (r, m, s) := Ring.handle st.ring rest; ({ st with ring := r }, m, s)
+  | "codec" :: rest => let (a, m, s) := Codec.handle st.codec rest; ({ st with codec := a }, m, s)
   | [] => (st, "", "")
   | _ => (st, "bad-core", "bad-core")
 
